@@ -193,6 +193,7 @@ class State:
                                         "route": route, "raw_authority": auth}, expected="identical outcomes", entry=what[0])
 
     def step(self, s):
+        self.ctx.tick()
         self.log.append(s)
         self.ctx.cur = ("machine", {"backend": self.backend, "steps": self.log})
         kind = s[0]
